@@ -38,6 +38,7 @@ type Ctx struct {
 	soleCalls map[*ssa.Function]ssa.CallInstruction
 	tenv      *termEnv
 	retParam  map[*ssa.Function]int
+	aliases   map[*ssa.Function]string
 }
 
 // theCtx: the program being analysed (one per process; used by the control-flow helpers to look through new helpers).
